@@ -165,6 +165,56 @@ def _t_kwonly(srcs):
         R(defs[pth]).visit(tree)
 
 
+def _t_extra_param(srcs):
+    """every module-level function and method gets an additional trailing keyword parameter `_verbose=False` that only guards a
+    logger call"""
+    import ast
+    for tree in srcs.values():
+        k = 0
+        while k < len(tree.body) and (isinstance(tree.body[k], ast.Expr) and isinstance(getattr(tree.body[k], "value", None), ast.Constant)
+                                       or isinstance(tree.body[k], ast.ImportFrom) and tree.body[k].module == "__future__"):
+            k += 1
+        tree.body[k:k] = ast.parse("import logging as _verif_logging2\n").body
+        for n in tree.body:
+            fns = [n] if isinstance(n, ast.FunctionDef) else [m for m in n.body if isinstance(m, ast.FunctionDef)] if isinstance(n, ast.ClassDef) else []
+            for fn in fns:
+                a = fn.args
+                if a.vararg or a.kwarg or fn.decorator_list:
+                    continue
+                if a.kwonlyargs:
+                    a.kwonlyargs.append(ast.arg(arg="_verbose"))
+                    a.kw_defaults.append(ast.Constant(False))
+                else:
+                    a.args.append(ast.arg(arg="_verbose"))
+                    a.defaults.append(ast.Constant(False))
+                j = 1 if (fn.body and isinstance(fn.body[0], ast.Expr) and isinstance(fn.body[0].value, ast.Constant) and isinstance(fn.body[0].value.value, str)) else 0
+                fn.body[j:j] = ast.parse("if _verbose:\n    _verif_logging2.getLogger(__name__).info('in %%s', %r)\n" % fn.name).body
+
+
+def _t_try_reraise(srcs):
+    """the body of every module-level function and method is wrapped in `try: ... except Exception: <log>; raise` (errors are logged
+    and passed on unchanged)"""
+    import ast
+    for tree in srcs.values():
+        k = 0
+        while k < len(tree.body) and (isinstance(tree.body[k], ast.Expr) and isinstance(getattr(tree.body[k], "value", None), ast.Constant)
+                                       or isinstance(tree.body[k], ast.ImportFrom) and tree.body[k].module == "__future__"):
+            k += 1
+        tree.body[k:k] = ast.parse("import logging as _verif_logging3\n").body
+        for n in tree.body:
+            fns = [n] if isinstance(n, ast.FunctionDef) else [m for m in n.body if isinstance(m, ast.FunctionDef)] if isinstance(n, ast.ClassDef) else []
+            for fn in fns:
+                if fn.decorator_list:
+                    continue
+                j = 1 if (fn.body and isinstance(fn.body[0], ast.Expr) and isinstance(fn.body[0].value, ast.Constant) and isinstance(fn.body[0].value.value, str)) else 0
+                body = fn.body[j:]
+                if not body:
+                    continue
+                handler = ast.ExceptHandler(type=ast.Name("Exception", ast.Load()), name=None,
+                                            body=ast.parse("_verif_logging3.getLogger(__name__).debug('error in %%s', %r)\nraise\n" % fn.name).body)
+                fn.body[j:] = [ast.Try(body=body, handlers=[handler], orelse=[], finalbody=[])]
+
+
 def _t_strip_docs_annotate(srcs):
     """docstrings removed, every parameter annotated with `object`, every function given a return annotation"""
     import ast
@@ -324,7 +374,7 @@ def _t_accept_lists(srcs):
                         n.body[k:k] = ast.parse("if not isinstance(%s, np.ndarray):\n    %s = np.array(%s)\n" % (a.arg, a.arg, a.arg)).body
 
 
-TREE_TRANSFORMS = {"@coerce_params": _t_coerce_params, "@accept_lists": _t_accept_lists, "@early_exit": _t_early_exit, "@numpy_alias": _t_numpy_alias, "@kwargs_calls": _t_kwargs_calls, "@strip_docs_annotate": _t_strip_docs_annotate, "@logging": _t_logging, "@traced": _t_traced, "@kwonly": _t_kwonly,
+TREE_TRANSFORMS = {"@coerce_params": _t_coerce_params, "@accept_lists": _t_accept_lists, "@early_exit": _t_early_exit, "@numpy_alias": _t_numpy_alias, "@kwargs_calls": _t_kwargs_calls, "@strip_docs_annotate": _t_strip_docs_annotate, "@logging": _t_logging, "@traced": _t_traced, "@kwonly": _t_kwonly, "@extra_param": _t_extra_param, "@try_reraise": _t_try_reraise,
                    "@shim": _t_shim}
 
 
